@@ -253,6 +253,19 @@ theorem send_ok_of_clean (hl : cfg.sendLocked = true) (hra : cfg.rearm = true) (
         rw [run_cons_of_step cfg bytesOf _ e1]; exact hrun
       exact whole_of_flushed cfg bytesOf hg' w s.nsid _ hlog hb hp
 
+/-- **A healthy idle connection never fails a send.**  However long the client idles (`tick d`, any `d`),
+    the next send on a clean writer succeeds: `send()` re-arms the write deadline before it writes. -/
+theorem idle_then_send_ok (hl : cfg.sendLocked = true) (hra : cfg.rearm = true) (hq : cfg.useQueue = false)
+    (hne : ∀ sid, bytesOf sid ≠ []) (s : St) (hg : Good cfg bytesOf s) (t : Nat) (ht : t ≠ 0) (hidle : s.pc t = .idle)
+    (hlock : s.lock = none) (hclean : s.conn = none ∨ ∃ w, s.wr = some w ∧ s.err.get w = false) (d : Nat) :
+    ∃ dial s', run cfg bytesOf (.tick d :: okSend t s.nsid (bytesOf s.nsid).length dial) s = some s' ∧
+      (s.nsid, true) ∈ s'.results ∧ ∃ w, Whole bytesOf s' w s.nsid := by
+  let s0 : St := { s with now := s.now + d }
+  have e0 : step cfg bytesOf s (.tick d) = some s0 := by simp [step, s0]
+  have hg0 : Good cfg bytesOf s0 := good_run cfg bytesOf hl [.tick d] s s0 hg (by simp [run, e0])
+  obtain ⟨dial, s', hrun, hres, hw⟩ := send_ok_of_clean cfg bytesOf hl hra hq hne s0 hg0 t ht hidle hlock hclean
+  exact ⟨dial, s', by rw [run_cons_of_step cfg bytesOf _ e0]; exact hrun, hres, hw⟩
+
 /-- a send that meets the sticky error fails, closes the connection and releases the lock -/
 theorem sticky_send (hq : cfg.useQueue = false) (s : St) (t w : Nat) (ht : t ≠ 0) (hidle : s.pc t = .idle)
     (hlock : s.lock = none) (hc : s.conn ≠ none) (hw : s.wr = some w) (he : s.err.get w = true) :
